@@ -8,6 +8,7 @@ import JSight.AllOfKSem
 import JSight.AllOfKTrans
 import JSight.AllOfKFull
 import JSight.OrRuleSetProofs
+import JSight.KeyTypeProofs
 import JSight.Dfs
 import JSight.PinnedTree
 /-!
@@ -364,5 +365,115 @@ example : VK.validateT (loadAll oFresh oMk [] (.or [.ruleSet (.int, 3), .typeStr
     (loadAll oFresh oMk [] (.or [.ruleSet (.int, 3), .typeStr (.str, 0)] (some (.null, 0)))).2 (.lit (.int, 1)) = false := by decide +kernel
 
 end OrRuleSets
+
+
+/-! ## The key test of key shortcuts inside the model (work package c03keytype)
+
+`C03_key_shortcuts` takes the key test as a parameter (`keyOK`). `KeyType.keyOKc` is that test as
+`validateTypeRules` / `checkConstraint` of `v_object.go` code it (after F-35, F-37), over the C02 rule model:
+the key token of the document, the compiled root node of the key type (JSON type, EXAMPLE, constraint map). -/
+namespace KeyTypes
+open RulesF KeyType
+
+/-- **C03_key_admitted_iff_value_accepted**: for every string type that keeps at least one constraint after
+compilation (`nullable: true` or any literal validator: length, regex, enum, `const: true`, a format type) and every
+key token of a document, the shortcut admits the key iff the C02 validator (`RulesF.litOKFull`: the function
+`C02_accept_iff_full` is about) accepts the key token as a VALUE of that type -/
+theorem C03_key_admitted_iff_value_accepted (o : Oracles) (l : LitSpecF) (k : KeyBytes)
+    (hs : l.kind = .s) (hk : Unquote.inQuotes k = true) (hr : l.nul = true ∨ l.rules ≠ []) :
+    keyOKc o (ofSpec l) k = litOKFull o l k :=
+  KeyType.key_admitted_iff_value_accepted o l k hs hk hr
+
+/-- the same in the words of the property text (C02's specification `Accepts`): the key `cs` (any spelling) is
+admitted iff the decoded string satisfies every rule of the type -/
+theorem C03_key_admitted_iff_accepts (o : Oracles) (S : SSpec) (hS : S.WF) (hA : S.applicable = true)
+    (hs : S.kind = .s) (hr : S.nul = true ∨ S.rules ≠ []) (cs : List SCh) (hc : (STok.str cs).WF) :
+    keyOKc o (ofSpec S.toModel) (STok.str cs).bytes = true ↔ Accepts EnumEq o S (.str cs) :=
+  KeyType.key_admitted_iff_accepts o S hS hA hs hr cs hc
+
+/-- **C03_key_type_without_rules**: an annotation made of `type: "string"` (any `type` that is no format),
+`const: false`, `nullable: false` only — or no annotation — leaves no constraint, and the type then admits exactly
+its EXAMPLE as key, compared after decoding … -/
+theorem C03_key_type_without_rules (o : Oracles) (ex : Bytes) (raws : List RawRule) (k : KeyBytes)
+    (h : raws.all KeyType.RawRule.inert = true) :
+    keyOKc o (ofRaw ex raws) k = (Unquote.unquote ex == Unquote.unquote k) :=
+  KeyType.key_type_without_rules_raw o ex raws k h
+
+/-- … although as a value such a type accepts every string -/
+theorem C03_value_type_without_rules (o : Oracles) (ex : Bytes) (raws : List RawRule) (k : Bytes)
+    (h : raws.all KeyType.RawRule.inert = true) (hk : Unquote.inQuotes k = true) :
+    litOKFull o (compile .s ex raws) k = true :=
+  KeyType.value_type_without_rules o _ k rfl (KeyType.compile_inert ex raws h).2 hk
+
+/-- the difference as a statement: "key admitted iff value accepted" for EVERY string type -/
+def C03_key_vs_value_full : Prop := KeyType.key_vs_value_full
+
+/-- it fails on `@K = "zz"` and the key `"a"` (long-standing documented reading: a type without rules stands for
+its example; replayed on the real library by `vh c03-keytype`, stat `witness_ruleless_type_key_vs_value`) -/
+theorem C03_key_vs_value_full_false : ¬ C03_key_vs_value_full := KeyType.key_vs_value_full_false
+
+/-- **C03_key_spelling_invariant** (F-35 as a theorem): two key tokens with the same decoded bytes get the same
+answer from every key type, whatever its root node and constraints (panic included) -/
+theorem C03_key_spelling_invariant (o : Oracles) (T : KeyTypeNode) (k₁ k₂ : KeyBytes)
+    (h₁ : Unquote.inQuotes k₁ = true) (h₂ : Unquote.inQuotes k₂ = true)
+    (hu : Unquote.unquote k₁ = Unquote.unquote k₂) :
+    keyStep o T k₁ = keyStep o T k₂ ∧ keyOKc o T k₁ = keyOKc o T k₂ :=
+  KeyType.key_spelling_invariant o T k₁ k₂ h₁ h₂ hu
+
+/-- … for RFC 8259 string tokens: equal text, equal answer -/
+theorem C03_key_spelling_invariant_tokens (o : Oracles) (T : KeyTypeNode) (cs₁ cs₂ : List SCh)
+    (h₁ : (STok.str cs₁).WF) (h₂ : (STok.str cs₂).WF) (ht : text cs₁ = text cs₂) :
+    keyOKc o T (STok.str cs₁).bytes = keyOKc o T (STok.str cs₂).bytes :=
+  KeyType.key_spelling_invariant_tokens o T cs₁ cs₂ h₁ h₂ ht
+
+/-- a root node that is no string: `ErrInvalidKeyType`, no key admitted -/
+theorem C03_key_type_not_string (o : Oracles) (T : KeyTypeNode) (k : KeyBytes) (hs : T.kind ≠ .s) :
+    keyStep o T k = none ∧ keyOKc o T k = false := KeyType.keyOKc_not_string o T k hs
+
+/-! non-vacuity -/
+private def b (s : List Nat) : Bytes := s.map UInt8.ofNat
+private def kAB : Bytes := b [34, 97, 98, 34]                      -- "ab"
+private def kABu : Bytes := b [34, 92, 117, 48, 48, 54, 49, 98, 34]  -- "\u0061b"
+private def kX : Bytes := b [34, 120, 34]                          -- "x"
+/-- oracles of the examples: regex `^a` as "starts with a", mail as "contains @" -/
+private def oEx : Oracles :=
+  { re := fun _ s => s.head? == some 97, mail := fun s => s.contains 64, uri := fun _ => false, rfc3339 := fun _ => false }
+private def kMail : Bytes := b [34, 97, 64, 98, 34]                -- "a@b"
+
+-- hypotheses of `C03_key_admitted_iff_value_accepted` met non-trivially, both verdicts
+example : Unquote.inQuotes kABu = true ∧ Unquote.unquote kABu = Unquote.unquote kAB := by decide
+-- `"ab" // {regex: "^a", maxLength: 2}`
+private def tRe : LitSpecF := compile .s kAB [.regex (b [94, 97]), .maxLength 2]
+example : tRe.rules ≠ [] ∧ keyOKc oEx (ofSpec tRe) kABu = true ∧ keyOKc oEx (ofSpec tRe) kX = false := by decide
+-- a format key type: `"a@b" // {type: "email"}`
+private def tMail : LitSpecF := compile .s kMail [.typeFmt .email]
+example : keyOKc oEx (ofSpec tMail) kMail = true ∧ keyOKc oEx (ofSpec tMail) kAB = false ∧
+    litOKFull oEx tMail kMail = true ∧ litOKFull oEx tMail kAB = false := by decide
+-- `"ab" // {const: true}`: the example only, in any spelling
+private def tConst : LitSpecF := compile .s kAB [.const true]
+example : keyOKc oEx (ofSpec tConst) kAB = true ∧ keyOKc oEx (ofSpec tConst) kABu = true ∧
+    keyOKc oEx (ofSpec tConst) kX = false := by decide
+-- `"ab" // {enum: ["ab", "x"]}`
+private def tEnum : LitSpecF := compile .s kAB [.enum [kAB, kX]]
+example : keyOKc oEx (ofSpec tEnum) kABu = true ∧ keyOKc oEx (ofSpec tEnum) kX = true ∧
+    keyOKc oEx (ofSpec tEnum) kMail = false := by decide
+-- `"ab" // {nullable: true}`: one constraint, no validator — every key, as every string value
+private def tNul : LitSpecF := compile .s kAB [.nullable true]
+example : tNul.nul = true ∧ tNul.rules = [] ∧ keyOKc oEx (ofSpec tNul) kX = true ∧ litOKFull oEx tNul kX = true := by decide
+-- a type without effective rules: `"ab" // {type: "string", const: false, nullable: false}`
+example : keyOKc oEx (ofRaw kAB [.typeOther, .const false, .nullable false]) kABu = true ∧
+    keyOKc oEx (ofRaw kAB [.typeOther, .const false, .nullable false]) kX = false ∧
+    litOKFull oEx (compile .s kAB [.typeOther, .const false, .nullable false]) kX = true := by decide
+-- constraints that are no validators (`type: "any"`, a types list): every key
+example : keyOKc oEx { kind := .s, ex := kAB, cons := [.any] } kX = true ∧
+    keyOKc oEx { kind := .s, ex := kAB, cons := [.typesList, .nullable] } kX = true := by decide
+-- a root that is no string
+example : keyStep oEx { kind := .i, ex := b [49], cons := [] } kX = none := by decide
+/-- regression witness of fix F-35 (e1d8e9e): before it a type without rules compared its example with the key AS
+SPELLED — `"\u0061b"` was refused where `"ab"` was admitted -/
+example : keyOKraw oEx (ofRaw kAB []) kAB = true ∧ keyOKraw oEx (ofRaw kAB []) kABu = false ∧
+    keyOKc oEx (ofRaw kAB []) kAB = true ∧ keyOKc oEx (ofRaw kAB []) kABu = true := by decide
+
+end KeyTypes
 
 end Props.C03
